@@ -19,6 +19,7 @@ DECIDED += "; R9 a dropped listener sweeps only children of its own address fami
 DECIDED += "; R2 also: the 4-tuple index is cleaned by owner (fd), never by key; fin_seq is the byte after send_buf on both close paths (shared C06-R7); R10 the extracted transition relation is a sub-relation of TCP's"
 DECIDED += "; R11 a shim socket is closed in the kernel of the host that owns it, not of the thread's current host (recorded finding D51)"
 DECIDED += "; R9 also: an orphaned socket resets only on *new* data (seq == rcv_nxt); R12 Kernel::egress reaps closed sockets on every pass and accept_syn counts the half-open children of the listener's address"
+DECIDED += '; a segment of a live connection never reaches the listener (shared C17-R4)'
 ASSUMPTIONS = ["an fd with no shim handle and not on a listener's ready queue is closed by nobody (derived from creation sites)"]
 
 STATE = "turmoil_net::kernel::socket::Tcb::state"
